@@ -34,6 +34,7 @@ import DfolsVerif.Gen.TrsClip
 import Mathlib.Algebra.BigOperators.Fin
 import Mathlib.Tactic.NormNum
 import Mathlib.Tactic.Positivity
+import DfolsVerif.Proofs.TrsNorm
 
 namespace Dfols
 namespace C12
@@ -141,6 +142,45 @@ theorem trsbox_first_step_cauchy {n : Nat} {K : Type} [Field K] [LinearOrder K] 
   even with these invariants the theorem would be about a second, exact copy of the loops.  Watched instead by the
   search (all five clauses, every run) and the correspondence (Lean port vs Python).
 -/
+
+/-! ### clause (2), step lemmas (exact real arithmetic) and their tie to the source -/
+
+/-- **a truncated CG step of `trsbox` stays in the trust region** (free components; `resid = delsq − ‖d‖² ≥ 0`): every step
+    length `0 ≤ t ≤ blen`, `blen` computed exactly as in trust_region.py (`C12_src_step_formulas`), keeps `‖d + t s‖² ≤ delsq`.
+    `stplen` is `blen` or smaller (`min(blen, ·)`, then only ever decreased under `if temp < stplen`). -/
+theorem C12_cg_step_in_ball {n : Nat} (d s : Fin n → ℝ) (delsq t : ℝ) (hs : 0 < s ⬝ᵥ s) (hr : 0 ≤ delsq - d ⬝ᵥ d)
+    (ht0 : 0 ≤ t) (ht : t ≤ TrsNorm.blen (s ⬝ᵥ s) (delsq - d ⬝ᵥ d) (d ⬝ᵥ s)) :
+    (d + t • s) ⬝ᵥ (d + t • s) ≤ delsq :=
+  TrsNorm.cg_step_in_ball d s delsq t hs hr ht0 ht
+
+/-- at `t = blen` the step lies ON the boundary (then the code goes on with `alt_trust_step`) -/
+theorem C12_cg_step_on_boundary {n : Nat} (d s : Fin n → ℝ) (delsq : ℝ) (hs : 0 < s ⬝ᵥ s) (hr : 0 < delsq - d ⬝ᵥ d) :
+    (d + TrsNorm.blen (s ⬝ᵥ s) (delsq - d ⬝ᵥ d) (d ⬝ᵥ s) • s) ⬝ᵥ (d + TrsNorm.blen (s ⬝ᵥ s) (delsq - d ⬝ᵥ d) (d ⬝ᵥ s) • s) = delsq :=
+  TrsNorm.cg_step_on_boundary d s delsq hs hr
+
+/-- **the rotation of `alt_trust_step` keeps the norm of the free part**: `d ← cth·d + sth·s` with `s ⟂ d`, `‖s‖ = ‖d‖` and the
+    half-angle values `cth = (1 − angt²)/(1 + angt²)`, `sth = 2 angt/(1 + angt²)` of the source, for every `angt` -/
+theorem C12_rotation_keeps_norm {n : Nat} (d s : Fin n → ℝ) (angt : ℝ) (horth : d ⬝ᵥ s = 0) (hnorm : s ⬝ᵥ s = d ⬝ᵥ d) :
+    let cth := (1 - angt ^ 2) / (1 + angt ^ 2)
+    let sth := 2 * angt / (1 + angt ^ 2)
+    (cth • d + sth • s) ⬝ᵥ (cth • d + sth • s) = d ⬝ᵥ d :=
+  TrsNorm.rotation_norm d s _ _ horth hnorm (TrsNorm.half_angle angt)
+
+/-- **layer G**: the formulas above are the ones in trust_region.py (canonical text regenerated on every run) -/
+theorem C12_src_step_formulas : Gen.trsboxStepFormulas =
+    [("trsbox", "resid = delsq - sumsq(d[xbdi == 0])"),
+     ("trsbox", "temp = sqrt(stepsq * resid + ds ** 2)"),
+     ("trsbox", "blen = resid / (temp + ds) if ds >= 0.0 else (temp - ds) / stepsq"),
+     ("trsbox", "stplen = blen if shs <= 0.0 else min(blen, gredsq / shs)"),
+     ("trsbox", "stplen = temp  # under: if temp < stplen"),
+     ("alt_trust_step", "cth = (1.0 - angt ** 2) / (1.0 + angt ** 2)"),
+     ("alt_trust_step", "sth = 2.0 * angt / (1.0 + angt ** 2)"),
+     ("alt_trust_step", "d[xbdi == 0] = cth * d[xbdi == 0] + sth * s[xbdi == 0]")] := by
+  decide +kernel
+
+/-- the hypotheses are satisfiable: d = (1, 0), s = (0, 1), delsq = 4: blen = √3, and the step lands on the boundary -/
+example : (0 : ℝ) < (![0, 1] : Fin 2 → ℝ) ⬝ᵥ ![0, 1] ∧ (0 : ℝ) < 4 - (![1, 0] : Fin 2 → ℝ) ⬝ᵥ ![1, 0] := by
+  simp [dotProduct, Fin.sum_univ_two]
 
 /-! ### non-vacuity -/
 
